@@ -29,6 +29,7 @@
 
 #include "adf_env.h"
 #include "adf_raw.h"
+#include "adf_util.h"
 #include "adf_vol.h"
 
 #include <stdlib.h>
@@ -74,7 +75,7 @@ RETCODE adfMountFlop ( struct AdfDevice * const dev )
         return RC_ERROR;
     }
     memset(diskName, 0, 35);
-    memcpy(diskName, root.diskName, root.nameLen);
+    memcpy(diskName, root.diskName, min ( root.nameLen, (uint8_t) MAXNAMELEN ) );
 
     vol->volName = strdup(diskName);
 	
